@@ -54,7 +54,7 @@ def _vm_store(t):
     out = []
     for e in es:
         f = e.split(":")
-        out.append("(mkEntry %s %s (%s)%%Z [] %s)" % (_vm_str(f[0]), _vm_str(f[1]), f[2], "true" if len(f) > 3 else "false"))
+        out.append("(mkEntry %s %s (%s)%%Z [] %s)" % (_vm_str(f[0]), _vm_str(f[1]), f[2], _vm_str(f[3]) if len(f) > 3 else "(@nil N)"))
     return "[" + "; ".join(out) + "]"
 
 
@@ -138,7 +138,7 @@ def _vm_goal(case, out):
                _vm_list(p[7]), _vm_ann(p[8]), _vm_odesc(p[9]), _vm_ann(p[10])))
     if o[0] == "ERR":
         e = {"unsupported": "EUnsupported", "invalid-media-type": "EInvalidMediaType", "missing-artifact-type": "EMissingArtifactType",
-             "invalid-datetime": "EInvalidDateTime", "injected": "EInjected"}[o[1]]
+             "invalid-datetime": "EInvalidDateTime", "storage-error": "EInjected"}[o[1]]
         return "vm_view %s = (VErr %s, %s)" % (call, e, _vm_events(o[3]))
     mt, at, ann = o[1].split(":")
     f = dict(t.split("=", 1) for t in o[2:8])
